@@ -545,3 +545,39 @@ pub fn collision_scripts(thorough: bool) -> (Vec<Script>, u64, u64) {
 }
 
 pub const COLLISION_NAME: &str = "E10 collision games: pairs of different positions whose engine hashes agree on a 32-bit window (bits 0..32, 16..48, 32..64), found by complete enumeration of the 657,720 arrangements of Gold E M H D on the 30 non-trap squares of ranks 2-5; P starts a turn twice, Gold then walks to C and ends a turn there (by a pass and by a fourth step): never seen before, must be offered";
+
+// ---------------------------------------------------------------------------------------------------------------
+// Games continued past a decided position (C04: "for EVERY position at the start of a turn"): the position is decided by
+// a goal or by the loss of all rabbits at the root; both sides shuffle an elephant out and back without a capture, so the
+// same decided position stands a second and a third time - the result must be the same every time, whatever the history.
+// ---------------------------------------------------------------------------------------------------------------
+pub fn decided_scripts() -> Vec<Script> {
+    let mut out = vec![];
+    // (gold pieces, silver pieces) in base orientation, Silver to move; Gold E d2 and Silver e e7 do the shuffling
+    let bases: Vec<(&str, Vec<(&str, bool, u8)>)> = vec![
+        ("Gold rabbit on its goal square a8", vec![("a8", true, 0), ("d2", true, 5), ("e7", false, 5), ("h5", false, 0)]),
+        ("Silver has no rabbits", vec![("a2", true, 0), ("d2", true, 5), ("e7", false, 5), ("h5", false, 1)]),
+        ("Gold has no rabbits", vec![("a2", true, 1), ("d2", true, 5), ("e7", false, 5), ("h5", false, 0)]),
+        ("Silver rabbit on its goal square h1 and Gold rabbit on a8", vec![("a8", true, 0), ("h1", false, 0), ("d2", true, 5), ("e7", false, 5)]),
+        ("neither side has rabbits", vec![("a2", true, 1), ("d2", true, 5), ("e7", false, 5), ("h5", false, 1)]),
+    ];
+    let lap = "e7s p d2n p e6n p d3s p";
+    for (what, pieces) in bases.iter() {
+        for mirror in [false, true] {
+            for swap in [false, true] {
+                let mut board = [rm::EMPTY; 64];
+                for (name, gold, st) in pieces.iter() {
+                    let t = transform_text(&format!("{}n", name), mirror, swap);
+                    board[crate::e2::sq(&t[0..2])] = rm::cell(*gold != swap, *st);
+                }
+                // two laps (the third occurrence is refused by the repetition rule: asked for, expected to be withheld)
+                let text = format!("{} {}", lap, lap);
+                let acts: Vec<Action> = text.split_whitespace().map(|a| transform_text(a, mirror, swap).parse::<Action>().expect("script action parses")).collect();
+                out.push(Script { board, gold: swap, move_number: 40, turns: split_turns(&acts), config: serde_json::json!({"decided_by": what, "mirrored_files": mirror, "colours_swapped_ranks_flipped": swap}) });
+            }
+        }
+    }
+    out
+}
+
+pub const DECIDED_NAME: &str = "E10 games continued past a decided position: decided at the root by goal / loss of all rabbits (5 cases x file mirror x colour swap); both elephants step out and back, the same decided position stands a second time (and a third is attempted): every turn start on the way is compared with the official order";
